@@ -463,6 +463,8 @@ def stratified(
         nonzero_weights *= data.nnz / num_nonzeros
 
     zero_subs = zeros(data, nz_idx, num_zeros, over_sample_rate, with_replacement=True)
+    # The rejection sampler may return fewer zeros than requested
+    num_zeros = zero_subs.shape[0]
     zero_vals = np.zeros((num_zeros,))
     data_nonzero_count = np.prod(data.shape) - data.nnz
     zero_weights = np.ones((num_zeros,))
